@@ -20,6 +20,10 @@ R-SYMSEL    find_symbol_table_section over e_type x (dynsym present) x (symtab p
             relocatable objects and executables, .dynsym first otherwise, the other one as the fallback.
 R-SYMALIAS  symtab::setup_symbol_lookup_tables: when the address is already taken (emplace(...).second is false)
             the new symbol is added as an alias of the symbol found there.
+R-SYMSRC    the symbol table of a binary is read from that binary: every symtab_reader::symtab::load(Elf*, ..) of the DWARF
+            reader is handed the ELF handle of the file under analysis (elf_handle()), never that of a separate debug-info
+            file - whose .symtab would make a binary that has lost its own (truncated, stripped of its section headers)
+            look intact.
 R-VERDEFAULT get_version_definition_for_versym: the default-version mark is the negation of the hidden bit
             (0x8000) of the versym entry.
 """
@@ -102,7 +106,7 @@ def run(ctx):
     ctx.clause = ("which ELF symbols become entries of the function / variable symbol tables, and with which type, "
                   "binding, visibility, default-version mark and alias links, is decided by tables and predicates that "
                   "agree with the ELF constants over their whole domain")
-    ctx.rules = ["R-SYMCONV", "R-SYMPUBLIC", "R-SYMKIND", "R-SYMFILTER", "R-SYMSECT", "R-SYMSEL", "R-SYMALIAS", "R-VERDEFAULT"]
+    ctx.rules = ["R-SYMCONV", "R-SYMPUBLIC", "R-SYMKIND", "R-SYMFILTER", "R-SYMSECT", "R-SYMSEL", "R-SYMALIAS", "R-VERDEFAULT", "R-SYMSRC"]
     P = ctx.program(UNITS)
     stt = check_conv(ctx, P)
     check_public(ctx, P)
@@ -113,6 +117,7 @@ def run(ctx):
     check_alias(ctx, P)
     check_alias_domain(ctx, P)
     check_verdefault(ctx, P)
+    check_symsrc(ctx)
     ctx.assume("libelf hands back the fields of the symbol table entries faithfully; names, sizes, addresses and the "
                "version strings are runtime values read from the binary and are not decided here (the oracle of the "
                "property is readelf)")
@@ -593,3 +598,31 @@ def check_verdefault(ctx, P):
             "is_default(%s)" % "/".join(str(v).lower() for v in sorted(vals)) if ok else
             "on the paths of that case the version is marked is_default(%s)" % ("/".join(str(v).lower() for v in sorted(vals)) or "nothing"))
     ctx.floor("R-VERDEFAULT", "hidden-bit worlds", n, 2)
+
+
+
+def check_symsrc(ctx, rule="R-SYMSRC"):
+    P = ctx.program(["src/abg-dwarf-reader.cc"])
+    n = 0
+    for f in sorted(P.all_funcs(), key=lambda x: (x.file, x.l0, x.sig)):
+        if f.dep or not f.q.startswith("abigail::dwarf_reader"):
+            continue
+        for x in f.nodes():
+            if x["k"] == "CallExpr" and (f.decl(x) or {}).get("n") == "load" and "symtab" in ((f.decl(x) or {}).get("q") or (f.decl(x) or {}).get("cls") or ""):
+                a = call_args(x)
+                if not a:
+                    continue
+                t = f.type(strip_casts(a[0])) or {}
+                if "Elf" not in (t.get("c") or t.get("s") or ""):
+                    continue                                   # the overload that takes symbol maps
+                n += 1
+                ctx.analysed(f)
+                srcs = sorted({(f.decl(y) or {}).get("n") for y in walk(a[0]) if y["k"] in ("CXXMemberCallExpr", "CallExpr")})
+                ok = srcs == ["elf_handle"]
+                k = sum(1 for o in ctx.obligations if o["rule"] == rule)
+                from rules.null_rules import short
+                ctx.ob(rule, "%s: symtab::load #%d reads the binary's own symbol table" % (short(f), k + 1), ok, f.loc(x),
+                       "symtab::load(elf_handle(), ..)" if ok else
+                       "symtab::load(%s, ..): the symbols come from another ELF file than the one under analysis - a binary whose own "
+                       "symbol table cannot be read is reported as if it were intact" % expr_str(f, a[0])[:40])
+    ctx.floor(rule, "symtab::load(Elf*) calls in the DWARF reader", n, 1)
